@@ -268,7 +268,7 @@ private:
 
           void set_done() && noexcept {
             auto& op = op_;
-            op.sourceOp_.destruct();
+            op.triggerOp_.destruct();
             op.trigger_cleanup_done();
           }
 
